@@ -900,32 +900,93 @@ Example forever_example :
 Proof. vm_compute. reflexivity. Qed.
 
 (** ** the trace predicate as a proposition *)
-Inductive P_from : list op -> obs -> list obs -> Prop :=
+Inductive P_from : list (op * bool * bool) -> obs -> list obs -> Prop :=
 | P_end_ops prev tr : P_from [] prev tr
 | P_end_tr h prev : P_from h prev []
-| P_step o h ob tr prev :
-    gate_obs o ob = true -> declared_step prev ob = true -> forever_step prev ob = true -> cascade_obs ob = true ->
-    P_from h ob tr -> P_from (o :: h) prev (ob :: tr).
+| P_step o chk lst h ob tr prev :
+    (chk = true -> gate_obs o ob = true) -> declared_step prev ob = true -> forever_step prev ob = true -> cascade_obs ob = true ->
+    P_from h ob tr -> P_from ((o, chk, lst) :: h) prev (ob :: tr).
 
 Lemma P_trace_from_spec : forall h prev tr i, P_trace_from h prev tr i = 0%N <-> P_from h prev tr.
 Proof.
-  induction h as [|o h IH]; intros prev tr i.
+  induction h as [|[[o chk] lst] h IH]; intros prev tr i.
   - cbn [P_trace_from]. split; [intros _; constructor | reflexivity].
   - destruct tr as [|ob tr]; cbn [P_trace_from].
     + split; [intros _; constructor | reflexivity].
-    + destruct (gate_obs o ob) eqn:G; cbn [negb].
-      2:{ split; [intro H; exfalso; lia | intro H; inversion H; subst; congruence]. }
+    + destruct (chk && negb (gate_obs o ob)) eqn:G.
+      { split; [intro H; exfalso; lia | intro H; inversion H; subst].
+        apply andb_true_iff in G. destruct G as [G1 G2].
+        match goal with Hg : chk = true -> gate_obs o ob = true |- _ => rewrite (Hg G1) in G2 end. discriminate G2. }
       destruct (declared_step prev ob) eqn:D; cbn [negb].
       2:{ split; [intro H; exfalso; lia | intro H; inversion H; subst; congruence]. }
       destruct (forever_step prev ob) eqn:F; cbn [negb].
       2:{ split; [intro H; exfalso; lia | intro H; inversion H; subst; congruence]. }
       destruct (cascade_obs ob) eqn:C; cbn [negb].
       2:{ split; [intro H; exfalso; lia | intro H; inversion H; subst; congruence]. }
-      rewrite IH. split; [intro H; constructor; assumption | intro H; inversion H; subst; assumption].
+      rewrite IH. split; [intro H; constructor; try assumption | intro H; inversion H; subst; assumption].
+      intro Hc. subst chk. cbn [andb] in G. destruct (gate_obs o ob); [reflexivity | discriminate G].
 Qed.
 
-Lemma P_b_spec h tr : P_b h tr = true <-> P_from h obs0 tr.
+Lemma P_b_spec h tr : P_b h tr = true <-> P_from (flat_mask h) obs0 tr.
 Proof. unfold P_b, P_trace. rewrite N.eqb_eq. apply P_trace_from_spec. Qed.
+
+Lemma P_b_blocks_spec bs tr : P_b_blocks bs tr = true <-> P_from (hist_mask bs) obs0 tr.
+Proof. unfold P_b_blocks, P_trace_blocks. rewrite N.eqb_eq. apply P_trace_from_spec. Qed.
+
+(** ** blocks *)
+Lemma trace_app f : forall a s b, trace f s (a ++ b) = (trace f s a ++ trace f (run_ops f s a) b)%list.
+Proof. induction a as [|o a IH]; intros s b; [reflexivity|]. cbn [app trace run_ops]. rewrite IH. reflexivity. Qed.
+
+Lemma run_ops_app f : forall a s b, run_ops f s (a ++ b) = run_ops f (run_ops f s a) b.
+Proof. induction a as [|o a IH]; intros s b; [reflexivity|]. cbn [app run_ops]. apply IH. Qed.
+
+Lemma step_at_step f c0 s o : d_cache_deferred f = false -> step_at f c0 s o = step f s o.
+Proof. intro H. destruct o; try reflexivity. unfold step_at. rewrite H. reflexivity. Qed.
+
+(** with the cache written right after each transaction a block is nothing but its transactions in a row *)
+Lemma trace_block_flat f c0 : d_cache_deferred f = false ->
+  forall ops s, trace_block f c0 s ops = (trace f s ops, run_ops f s ops).
+Proof.
+  intro H. induction ops as [|o t IH]; intro s; [reflexivity|].
+  cbn [trace_block trace run_ops]. rewrite (step_at_step f c0 s o H), IH. reflexivity.
+Qed.
+
+Lemma trace_blocks_flat f : d_cache_deferred f = false ->
+  forall bs s, trace_blocks f s bs = trace f s (List.concat bs).
+Proof.
+  intro H. induction bs as [|b t IH]; intro s; [reflexivity|].
+  cbn [trace_blocks List.concat]. rewrite (trace_block_flat f (cache s) H b s), trace_app, IH. reflexivity.
+Qed.
+
+(** the gate at a position inside a block: after the blocks [bs] and the transactions [pre] of the current block,
+    the request is decided on the records stored at that very position *)
+Lemma gate_in_block f bs pre src dst :
+  d_cache_failed_events f = false -> d_cache_deferred f = false ->
+  let s0 := run_ops f st0 (List.concat bs) in
+  let s := run_ops f s0 pre in
+  exists oc, r_out (step_at f (cache s0) s (OIbtp src dst)) = outcome_code oc /\ gate_sound (svcs s) src dst oc = true.
+Proof.
+  intros Hf Hd s0 s. exists (ibtp_outcome s src dst). split.
+  - rewrite (step_at_step f _ s _ Hd). reflexivity.
+  - subst s s0. rewrite <- run_ops_app. apply gate_theorem. exact Hf.
+Qed.
+
+(** a cache that takes the records only at the end of the block lets a request through that follows, in the same
+    block, the approval of the freeze of its destination *)
+Definition b_deferred : list (list op) :=
+  (map (fun o => [o]) setup ++ [[OSvcOp 1 20 []]; [OConclude 0 true; OIbtp 10 20]])%list.
+
+Lemma deferred_refuted :
+  P_b_blocks b_deferred (model_trace_blocks (cfg_of_bits4 false false false true) b_deferred) = false.
+Proof. vm_compute. reflexivity. Qed.
+
+Lemma deferred_fixed : P_b_blocks b_deferred (model_trace_blocks cfg_fixed b_deferred) = true.
+Proof. vm_compute. reflexivity. Qed.
+
+Lemma deferred_outcomes :
+  (map r_out (skipn 9 (trace_blocks (cfg_of_bits4 false false false true) st0 b_deferred)),
+   map r_out (skipn 9 (trace_blocks cfg_fixed st0 b_deferred))) = ([9; 0], [9; 1])%N.
+Proof. vm_compute. reflexivity. Qed.
 
 (** submitting the logout (or an update) of an appchain pauses its services at once *)
 Lemma cascade_logout_submit c s s' :
